@@ -71,6 +71,9 @@ RECIPES = [
     ("C03", "break", ["C03-R3"], S, _SERIAL_IC_LOOP, _SERIAL_IC_LOOP.replace("lfilter(b, a, sig", "lfilter(a, b, sig"), "lfilter(a, b, ...) in the serial loop"),
     ("C03", "break", ["C03-R3"], S, '        "pvelo": pvelo,\n        "pacce": pacce,', '        "pvelo": pacce,\n        "pacce": pvelo,', "coefficient table entries swapped"),
     ("C03", "break", ["C03-R3"], S, "            icvals = -s1\n", "            icvals = s1\n", "sign of the steady-state values of the displacement types"),
+    ("C03", "break", ["C03-R3"], S, "            icvals = -s1\n", "            icvals = -1.0 * sig[0]\n", "steady-state values read from the already shifted signal (always zero)"),
+    ("C03", "break", ["C03-R4"], S, "    doic = 0\n    icvals = None\n    s1 = sig[0]\n    if ic == \"shift\":\n        sig = sig - s1\n",
+     "    doic = 0\n    icvals = None\n    s1 = sig[0]\n    if ic == \"shift\":\n        sig = sig - s1\n        icvals = s1\n        doic = 1\n", "ic='shift' adds the first sample back"),
     ("C03", "break", ["C03-R7"], S, _TAIL, _TAIL_HIST_NOT_SCALED, "eqsine: response history not divided by Q"),
     ("C03", "break", ["C03-R7"], S, _TAIL, _TAIL_TWICE, "eqsine: spectrum divided by Q twice when getresp"),
     ("C03", "break", ["C03-R6"], S, "            z_miles = np.sqrt((np.pi / 2 * Fn * Q) * psdf2.T).T", "            z_miles = np.sqrt((np.pi * Fn * Q) * psdf2.T).T", "Miles factor pi instead of pi/2"),
@@ -86,7 +89,6 @@ RECIPES = [
     ("C03", "neutral", [], S, _TAIL, _TAIL_RESTRUCTURED, "eqsine tail restructured, plain division"),
     ("C03", "neutral", [], S, "        b = np.array([beta0, beta1, beta2])\n    a = np.array([1, -2 * C, E2])\n    return b, a\n\n\ndef relacce",
      "        b = (beta0, beta1, beta2)\n    return np.asarray(b), np.asarray((1, -2 * C, E2))\n\n\ndef relacce", "absacce returns np.asarray of tuples"),
-    ("C03", "neutral", [], S, "            icvals = -s1\n", "            icvals = -1.0 * sig[0]\n", "steady-state values from the first sample directly"),
     ("C03", "neutral", [], S, "        resphist += ICVALS_ / WN_[j] ** 2\n    elif stype == \"pvelo\":\n        resphist += ICVALS_ / WN_[j]\n    else:\n        # stype == 'pacce' or 'absacce'\n        resphist += ICVALS_\n    SRSmax_[j] = methfunc(resphist[S:])\n    HIST_",
      "        w = WN_[j]\n        resphist = resphist + ICVALS_ / (w * w)\n    elif stype in (\"pacce\", \"absacce\"):\n        resphist += ICVALS_\n    else:\n        resphist += ICVALS_ / WN_[j]\n    SRSmax_[j] = methfunc(resphist[S:])\n    HIST_",
      "worker add-back arms reordered, membership test, plain addition"),
